@@ -71,7 +71,7 @@ class ItemRec:
 
 class TokRec:
     __slots__ = ("tok", "sh", "side", "prio", "seq", "owner", "state", "t_issue", "t_grant",
-                 "gseq", "filter", "bound", "via", "checked", "issue_step", "client", "g_step")
+                 "gseq", "filter", "bound", "via", "checked", "issue_step", "client", "g_step", "leaked")
 
     def __init__(self, tok, sh, side, prio, seq, owner, t, filt, step):
         self.tok = tok
@@ -91,6 +91,7 @@ class TokRec:
         self.issue_step = step
         self.client = None
         self.g_step = None
+        self.leaked = False        # created inside a can_put / can_get query and left behind: nobody holds this token
 
     def key(self):
         if self.sh.has_prio:
@@ -201,6 +202,10 @@ class ShadowStore:
 
     def free(self):
         return self.cap - len(self.held) - len(self.grant["put"])
+
+    def free_unleaked(self):
+        """free places when the reservations that a query left behind (held by nobody) are not counted as occupants"""
+        return self.cap - len(self.held) - sum(1 for r in self.grant["put"] if not r.leaked)
 
     # ---------------------------------------------------------------- token life cycle
     def issue(self, tok, side, prio, filt):
